@@ -2,6 +2,7 @@
 import json, os
 R = {
  "C20-f": (6, False, "C20 T9-find-returns-root (find answers with root_index(a), or with an index for which parent[x] == x dominates the return)", "generic Partition: an element three or more links below its representative (class of >= 8 built by balanced merges), queried first"),
+ "C03-f": (6, False, "C03 T8-structural-equality (PartialEq of PartialDSym / SimpleDSet is derived, or a hand-written eq compares dset and orbit_vs)", "two non-isomorphic symbols on the same D-set with the same orbit sizes (they differ only in branching numbers): their canonical forms compare equal"),
  "C19-f": (6, True, "", "undirected vertex cut called with source > sink numerically"),
  "C07-f": (6, True, "", "non-negative base curvature, an orbit with r >= 3 raised from v = 1 to 2 while an orbit with r <= 2 stays at its minimum: 11 D-sets up to size 7"),
  "C08-f": (6, True, "", "bad orbifolds (tear-drop / spindle): is_euclidean true although curvature is positive"),
